@@ -8,7 +8,8 @@ import glob, json, os, random, re, hashlib, shutil, time
 import common
 import gen_grid
 
-COQ_FILES = ["Grid/QVec.v", "Grid/IntLin.v", "Grid/GridSem.v", "Grid/GridRef.v"]
+COQ_FILES = ["Grid/QVec.v", "Grid/IntLin.v", "Grid/GridSem.v", "Grid/GridRef.v", "Grid/GridFreq.v", "Grid/GridOps2.v",
+             "Grid/GridOpsSpec.v", "Grid/GridOpsSpec2.v"]
 
 
 def parse_fail(line):
